@@ -89,6 +89,19 @@ var findings = []finding{
 		}
 		return ""
 	}},
+	{"C02-NIL-OBJECT-POINTER", func() string {
+		vm := newVM(64, 100_000)
+		return w(func() { _ = vm.Set("o", (*otto.Object)(nil)) })
+	}},
+	{"C02-NIL-GO-FUNC", func() string {
+		vm := newVM(64, 100_000)
+		_ = vm.Set("nf", (func())(nil))
+		return w(func() { _, _ = vm.Run(`typeof nf === "function" ? nf() : 0`) })
+	}},
+	{"C02-APPLY-HUGE-LENGTH", func() string {
+		// 2^32-1 Values would be 100 GB: the allocation fails at once (or the heap guard ends the worker)
+		return wRun(`(function(){}).apply(null, {length: 4294967295})`)
+	}},
 	{"C02-GOMAP-NIL", func() string { return wRun(`__gonilmap.a = 1`) }},
 	{"C02-EXPORT-UNGUARDED", func() string {
 		vm := newVM(64, 100_000)
@@ -251,6 +264,12 @@ func excludedCall(fn fnEntry, recv kind, ap argPlan, ks []kind, way int) string 
 }
 
 func excludedAccess(accessor string, k kind) string {
+	if known("C02-NIL-GO-FUNC") && strings.HasPrefix(accessor, "nil Go value") && strings.Contains(accessor, "(func") && strings.Contains(accessor, "Value.Call argument") {
+		return "C02-NIL-GO-FUNC" // a nil Go func becomes a callable object; Value.Call hands it to functions that may call it
+	}
+	if known("C02-NIL-OBJECT-POINTER") && strings.HasPrefix(accessor, "nil Go value") && strings.Contains(accessor, "otto.Object") {
+		return "C02-NIL-OBJECT-POINTER" // a nil *otto.Object, bare or inside a slice / map / struct that is converted
+	}
 	if isOneOf(accessor, "Value.Export", "Otto.Set(exported)") {
 		if known("C02-EXPORT-CYCLE") && (cyclicKind(k) || (k.Name == "global" && accessor == "Otto.Set(exported)")) {
 			// (the earlier accessor call Otto.Set("__v", global) has made the global object cyclic)
